@@ -361,18 +361,22 @@ theorem m_tagKey (m : Metadata) : getStr (metadataFields m) "tagKey" = .ok m.tag
   unfold getStr; mlookup; by_cases h : m.tagKey = "" <;> simp [h]
 theorem m_prefix (m : Metadata) : getStr (metadataFields m) "prefix" = .ok m.prefix_ := by
   unfold getStr; mlookup; by_cases h : m.prefix_ = "" <;> simp [h]
-theorem m_kind (m : Metadata) : getInt (metadataFields m) "type" = .ok m.kind := by
-  unfold getInt; mlookup; by_cases h : m.kind = 0 <;> simp [h]
+theorem m_kind (m : Metadata) (hk : m.kind < 256) : getU8 (metadataFields m) "type" = .ok m.kind := by
+  unfold getU8; mlookup
+  by_cases h : m.kind = 0
+  · simp [h]
+  · have : (m.kind : Int) < 256 := by omega
+    simp [h, this]
 theorem m_limit (m : Metadata) : getInt (metadataFields m) "limit" = .ok m.limit := by
   unfold getInt; mlookup; by_cases h : m.limit = 0 <;> simp [h]
 theorem m_condition (m : Metadata) : getRaw (metadataFields m) "condition" = marshalRaw m.condition := by
   unfold getRaw; mlookup; exact rawElem_marshalRaw _
 
-theorem unmarshalMetadata_marshalMetadata (m : Metadata) :
+theorem unmarshalMetadata_marshalMetadata (m : Metadata) (hk : m.kind < 256) :
     unmarshalMetadata (marshalMetadata m) =
       if optWellFormed m.condition then .ok m else .error .syntax := by
   simp only [unmarshalMetadata, marshalMetadata, structFields, bind, Except.bind, pure, Except.pure,
-    m_ns, m_metric, m_tagKey, m_prefix, m_kind, m_limit, m_condition, unmarshalOpt_marshal]
+    m_ns, m_metric, m_tagKey, m_prefix, m_kind m hk, m_limit, m_condition, unmarshalOpt_marshal]
   by_cases c1 : optWellFormed m.condition <;> simp [c1]
 
 end LinVerif.Stmt
